@@ -338,11 +338,33 @@ const MON: &[&str] = &[
     "(¤⇌)", "(⊢¤)", "(♭¤)", "(□⇌)", "(⇌≡⇌)", "(≡⇌≡⍉)", "(5◌)", "(⊂⊸⇌)", "(⊟⟜⇌)", "(+1)", "(⌵⇌)", "(⇌¯)", "(↙1)", "(⊂0)", "(\\+)", "(/↥♭)", "(⊢⍆)",
 ];
 /// dyadic 2->1 operands
-const DY: &[&str] = &["+", "-", "×", "↥", "↧", "=", "<", "⊂", "⊟", "≍", "(⊂⇌)", "(+⊢)", "(⊟⊙⇌)", "˜-", "˜⊂", "(↥⊙¯)", "⊡", "↻"];
+const DY: &[&str] = &["+", "-", "×", "↥", "↧", "=", "<", "⊂", "⊟", "≍", "(⊂⇌)", "(+⊢)", "(⊟⊙⇌)", "˜-", "˜⊂", "(↥⊙¯)", "⊡", "↻", "(+1+)", "(×2↥)", "(-⊙(+1))"];
+
+/// the operand without ONE pair of enclosing parentheses (if the first `(` closes at the very end)
+fn bare_of(f: &str) -> &str {
+    let cs: Vec<(usize, char)> = f.char_indices().collect();
+    if cs.len() < 2 || cs[0].1 != '(' || cs[cs.len() - 1].1 != ')' {
+        return f;
+    }
+    let mut depth = 0i32;
+    for (k, (_, c)) in cs.iter().enumerate() {
+        match c {
+            '(' => depth += 1,
+            ')' => {
+                depth -= 1;
+                if depth == 0 && k != cs.len() - 1 {
+                    return f;
+                }
+            }
+            _ => {}
+        }
+    }
+    &f[cs[1].0..cs[cs.len() - 1].0]
+}
 
 fn wrap_variants(f: &str) -> Vec<(String, String, &'static str)> {
     // (prelude, operand text, variant name)
-    let bare = f.trim_start_matches('(').trim_end_matches(')');
+    let bare = bare_of(f);
     vec![
         (String::new(), f.to_string(), "direct"),
         (format!("G ← {bare}\n"), "G".to_string(), "wrapper"),
@@ -430,7 +452,7 @@ impl Rep {
 
 /// classify a disagreement of a mapping modifier into a stable class
 fn classify(hand: &H, imp: &Result<Value, String>, x: &Value, k: usize, operand: &str, modg: &str) -> String {
-    let bare = operand.trim_start_matches('(').trim_end_matches(')');
+    let bare = bare_of(operand);
     let pervasive_only = !bare.is_empty() && bare.chars().all(|c| "¬±¯⌵√⌊⌈⁅+-×÷=≠<>≤≥↥↧0123456789".contains(c));
     if modg == "⍚" && pervasive_only {
         return "inventory-pervasive-unboxed".into();
@@ -487,9 +509,41 @@ fn search(r: &mut Rng, n: usize) {
     each3_case(&mut rep, &mut ev, "(++)", &num(&[0], &[]), &num(&[], &[1.]), &num(&[], &[2.]));
     each3_case(&mut rep, &mut ev, "(⊂⊂)", &num(&[2, 0], &[]), &num(&[], &[1.]), &num(&[2, 0], &[]));
     marked_corpus(&mut rep, &mut ev);
+    multi_corpus(&mut rep, &mut ev);
     let mut i = 0;
     while i < n {
         i += 1;
+        if i % 6 == 3 {
+            // operands with several outputs: all outputs compared in order
+            let kind = r.below(10);
+            if kind < 6 {
+                let fi = r.below(MULTI_MON.len());
+                let x = garr(r, 3, -1, 1, 2);
+                let x = if r.chance(1, 10) { num(&[], &[r.range(0, 5) as f64]) } else { x };
+                let modg = *r.pick(&["≡", "≡", "∵", "⍚"]);
+                let k = 1 + r.below(2);
+                multi_mon_case(&mut rep, &mut ev, modg, k, fi, &x);
+            } else if kind < 9 {
+                let fi = r.below(MULTI_DY.len());
+                let x = garr(r, 2, -1, 1, 1);
+                let table = r.chance(1, 2);
+                let y = if table {
+                    garr(r, 2, -1, 1, 1)
+                } else {
+                    let sh: Vec<usize> = x.shape.iter().copied().collect();
+                    let d: Vec<f64> = (0..shape_len(&sh)).map(|_| r.range(-3, 6) as f64).collect();
+                    num(&sh, &d)
+                };
+                multi_dy_case(&mut rep, &mut ev, table, fi, &x, &y);
+            } else {
+                let fi = r.below(MULTI_FOLD.len());
+                let x = garr(r, 2, -1, 1, 1);
+                let a1 = num(&[], &[r.range(0, 3) as f64]);
+                let a2 = num(&[], &[r.range(0, 3) as f64]);
+                multi_fold_case(&mut rep, &mut ev, fi, &x, &a1, &a2);
+            }
+            continue;
+        }
         if i % 6 == 0 {
             // directed family: specialised operands on arguments that carry sortedness marks
             let rank = 1 + r.below(3);
@@ -604,6 +658,291 @@ fn search(r: &mut Rng, n: usize) {
         rep.viol,
         serde_json::to_string(&rep.fam).unwrap()
     );
+}
+
+// ---------------------------------------------------------------- operands with several outputs
+
+/// (source, arguments, outputs, index of an output that is random (compared by shape only) or 9)
+const MULTI_MON: &[(&str, usize, usize)] = &[
+    ("(4 ¯)", 2, 9),
+    ("(0 ¯)", 2, 9),
+    ("(¬ 4 ¬)", 2, 9),
+    ("(\"ab\" ⇌)", 2, 9),
+    ("(1_2 ¯)", 2, 9),
+    ("(⚂ ¯)", 2, 0),
+    ("(⚂ ⇌)", 2, 0),
+    ("(1 2 ¯)", 3, 9),
+    ("(3 ⊸¯)", 3, 9),
+    ("⊸¯", 2, 9),
+    ("⟜¯", 2, 9),
+    ("⊸⇌", 2, 9),
+    ("⟜⇌", 2, 9),
+    ("⊸⊢", 2, 9),
+    ("⟜(+1)", 2, 9),
+    ("⊸(5◌)", 2, 9),
+    ("⟜(5◌)", 2, 9),
+    ("⊃⇌△", 2, 9),
+    ("⊃¯¬", 2, 9),
+    ("⊃∘¯", 2, 9),
+    ("⊃(¯|¬|⌵)", 3, 9),
+    ("⊃(⇌|⊢|⧻)", 3, 9),
+    ("(˜⊙∘⊸¯)", 2, 9),
+    ("(⊸¯⇌)", 2, 9),
+    ("(°⊟⊟⊸¯)", 2, 9),
+];
+const MULTI_DY: &[(&str, usize)] = &[
+    ("⊃+-", 2),
+    ("⊃+×", 2),
+    ("⊃⊂⊟", 2),
+    ("⟜+", 2),
+    ("⊸+", 2),
+    ("⊸⊂", 2),
+    ("(4 +)", 2),
+    ("(⚂ +)", 2),
+    ("⊓¯¬", 2),
+    ("⊓⇌∘", 2),
+    ("˜⊙∘", 2),
+    ("⊃(+|-|×)", 3),
+    ("(1 ⊃+-)", 3),
+];
+/// fold operands: (source, iterated arrays, accumulators)
+const MULTI_FOLD: &[(&str, usize, usize)] = &[("⊃+(×⊙⋅∘)", 1, 2), ("⊃(+⊙◌)(↥⊙⋅∘)", 1, 2), ("⊃(⊂⊙◌)(+⊙⋅∘)", 1, 2)];
+
+fn transpose_h(items: Vec<Result<Vec<H>, String>>, outs: usize, n: usize) -> Vec<H> {
+    (0..outs)
+        .map(|j| {
+            let col: Vec<H> = items
+                .iter()
+                .map(|it| match it {
+                    Ok(v) => v[j].clone(),
+                    Err(e) => H::E(e.clone()),
+                })
+                .collect();
+            assemble(col, n)
+        })
+        .collect()
+}
+
+/// F applied once: all outputs, top first
+fn call_multi(f: &str, args: &[Value], outs: usize, ev: &mut usize) -> Result<Vec<H>, String> {
+    let o = calln("", f, args, ev)?;
+    if o.len() != outs {
+        return Err(format!("by hand: {} outputs", o.len()));
+    }
+    Ok(o.into_iter().map(H::V).collect())
+}
+
+fn hand_rows_multi(f: &str, xs: &[Value], k: usize, outs: usize, ev: &mut usize) -> Result<Vec<H>, String> {
+    if k == 0 || xs.iter().all(|x| x.rank() == 0) {
+        return call_multi(f, xs, outs, ev);
+    }
+    let n = xs.iter().filter(|x| x.rank() > 0).map(|x| x.row_count()).next().unwrap();
+    let items: Vec<Result<Vec<H>, String>> = (0..n)
+        .map(|i| {
+            let rs: Vec<Value> = xs.iter().map(|x| if x.rank() == 0 { x.clone() } else { x.row(i) }).collect();
+            hand_rows_multi(f, &rs, k - 1, outs, ev)
+        })
+        .collect();
+    Ok(transpose_h(items, outs, n))
+}
+
+fn hand_each_multi(f: &str, x: &Value, outs: usize, ev: &mut usize) -> Result<Vec<H>, String> {
+    let n = x.shape.elements();
+    let sh: Vec<usize> = x.shape.iter().copied().collect();
+    if n == 0 {
+        let z = sh.iter().position(|&d| d == 0).unwrap();
+        return Ok(vec![H::Lead(sh[..=z].to_vec()); outs]);
+    }
+    if x.rank() == 0 {
+        return call_multi(f, &[x.clone()], outs, ev);
+    }
+    let mut flat = x.clone();
+    flat.shape = [n].as_slice().into();
+    let items: Vec<Result<Vec<H>, String>> = flat.rows().map(|e| call_multi(f, &[e], outs, ev)).collect();
+    Ok(transpose_h(items, outs, n)
+        .into_iter()
+        .map(|h| match h {
+            H::V(mut v) => {
+                let mut s2 = sh.clone();
+                s2.extend(v.shape.iter().skip(1).copied());
+                v.shape = s2.as_slice().into();
+                H::V(v)
+            }
+            h => h,
+        })
+        .collect())
+}
+
+fn hand_inventory_multi(f: &str, x: &Value, outs: usize, ev: &mut usize) -> Result<Vec<H>, String> {
+    let boxed = |r: Result<Vec<H>, String>| -> Result<Vec<H>, String> {
+        r.map(|v| {
+            v.into_iter()
+                .map(|h| match h {
+                    H::V(v) => H::V(boxes(&[], vec![v])),
+                    h => h,
+                })
+                .collect()
+        })
+    };
+    if x.rank() == 0 {
+        return boxed(call_multi(f, &[x.clone().unboxed()], outs, ev));
+    }
+    let n = x.row_count();
+    let items: Vec<Result<Vec<H>, String>> = x.rows().map(|r| boxed(call_multi(f, &[r.unboxed()], outs, ev))).collect();
+    Ok(transpose_h(items, outs, n))
+}
+
+fn hand_table_multi(f: &str, x: &Value, y: &Value, outs: usize, ev: &mut usize) -> Result<Vec<H>, String> {
+    let nx = x.row_count();
+    let ny = y.row_count();
+    let items: Vec<Result<Vec<H>, String>> = x
+        .rows()
+        .map(|a| {
+            let inner: Vec<Result<Vec<H>, String>> = y.rows().map(|b| call_multi(f, &[a.clone(), b], outs, ev)).collect();
+            Ok(transpose_h(inner, outs, ny))
+        })
+        .collect();
+    Ok(transpose_h(items, outs, nx))
+}
+
+/// ∧F x a1 a2: F gets the row, then the accumulators; returns the new accumulators
+fn hand_fold_multi(f: &str, x: &Value, accs: &[Value], ev: &mut usize) -> Result<Vec<H>, String> {
+    let mut accs: Vec<Value> = accs.to_vec();
+    for r in rows_of(x) {
+        let mut a = vec![r];
+        a.extend(accs.iter().cloned());
+        let o = calln("", f, &a, ev)?;
+        if o.len() != accs.len() {
+            return Err(format!("by hand: {} outputs", o.len()));
+        }
+        accs = o;
+    }
+    Ok(accs.into_iter().map(H::V).collect())
+}
+
+/// compare ALL outputs, in order, of `mods F` (direct / named / noise) with the by-hand outputs
+fn multi_compare(rep: &mut Rep, ev: &mut usize, fam: &str, mods: &str, f: &str, args: &[Value], hand: &Result<Vec<H>, String>, rand_at: usize) {
+    for (prelude, op, vname) in wrap_variants(f) {
+        let src = format!("{prelude}{mods}{op}");
+        *ev += 1;
+        let mut st: Vec<Value> = args.to_vec();
+        st.reverse();
+        let imp = run_uiua_with(&src, &st).map(|mut o| {
+            o.reverse();
+            o
+        });
+        rep.count(fam);
+        let ok = match (hand, &imp) {
+            (Ok(hs), Ok(vs)) => {
+                let any_err = hs.iter().any(|h| matches!(h, H::E(_)));
+                !any_err
+                    && hs.len() == vs.len()
+                    && hs.iter().zip(vs.iter()).enumerate().all(|(j, (h, v))| {
+                        if uiua::verif::check_value(v).is_err() {
+                            return false;
+                        }
+                        if j == rand_at {
+                            // a random output: only its shape is determined
+                            match h {
+                                H::V(a) => a.shape == v.shape,
+                                H::Lead(p) => v.shape.len() >= p.len() && v.shape[..p.len()] == p[..],
+                                H::E(_) => false,
+                            }
+                        } else {
+                            agrees(h, &Ok(v.clone()))
+                        }
+                    })
+            }
+            (Ok(hs), Err(_)) => hs.iter().any(|h| matches!(h, H::E(_))),
+            (Err(_), Err(_)) => true,
+            (Err(_), Ok(_)) => false,
+        };
+        if !ok {
+            let hs = match hand {
+                Ok(hs) => hs.iter().map(show_h).collect::<Vec<_>>().join(" | "),
+                Err(e) => format!("ERR {}", e.lines().next().unwrap_or("")),
+            };
+            let gs = match &imp {
+                Ok(vs) => vs.iter().map(|v| show_r(&Ok(v.clone()))).collect::<Vec<_>>().join(" | "),
+                Err(e) => format!("ERR {}", e.lines().next().unwrap_or("")),
+            };
+            let empty = args.iter().any(|a| a.shape.elements() == 0);
+            let class = if empty { "multi-output-empty" } else { "multi-output" };
+            rep.report(fam, class, f, vname, &src.replace('\n', " ; "), &args.iter().collect::<Vec<_>>(), &hs, &gs);
+        }
+    }
+}
+
+fn multi_mon_case(rep: &mut Rep, ev: &mut usize, modg: &str, k: usize, fi: usize, x: &Value) {
+    let (f, outs, rand_at) = MULTI_MON[fi];
+    let hand = match modg {
+        "≡" => hand_rows_multi(f, &[x.clone()], k, outs, ev),
+        "∵" => hand_each_multi(f, x, outs, ev),
+        _ => hand_inventory_multi(f, x, outs, ev),
+    };
+    let hand = match hand {
+        // an empty mapped axis: only the leading lengths of every output
+        Ok(hs) => Ok(hs),
+        e => e,
+    };
+    let mods = modg.repeat(if modg == "≡" { k } else { 1 });
+    multi_compare(rep, ev, &format!("{modg}→{outs}"), &mods, f, &[x.clone()], &hand, rand_at);
+}
+
+fn multi_dy_case(rep: &mut Rep, ev: &mut usize, table: bool, fi: usize, x: &Value, y: &Value) {
+    let (f, outs) = MULTI_DY[fi];
+    let rand_at = if f.contains('⚂') { 0 } else { 9 };
+    if table {
+        if x.rank() == 0 || y.rank() == 0 {
+            return;
+        }
+        let hand = hand_table_multi(f, x, y, outs, ev);
+        multi_compare(rep, ev, &format!("⊞→{outs}"), "⊞", f, &[x.clone(), y.clone()], &hand, rand_at);
+    } else {
+        if x.rank() == 0 || y.rank() == 0 || x.row_count() != y.row_count() {
+            return;
+        }
+        let hand = hand_rows_multi(f, &[x.clone(), y.clone()], 1, outs, ev);
+        multi_compare(rep, ev, &format!("≡2→{outs}"), "≡", f, &[x.clone(), y.clone()], &hand, rand_at);
+    }
+}
+
+fn multi_fold_case(rep: &mut Rep, ev: &mut usize, fi: usize, x: &Value, a1: &Value, a2: &Value) {
+    let (f, _, _) = MULTI_FOLD[fi];
+    let hand = hand_fold_multi(f, x, &[a1.clone(), a2.clone()], ev);
+    multi_compare(rep, ev, "∧→2", "∧", f, &[x.clone(), a1.clone(), a2.clone()], &hand, 9);
+}
+
+/// regression: the programs of commit 3a3fb99 (f_mon2_fast_fn returned its pair swapped), then every
+/// multi-output operand once on small fixed arguments
+fn multi_corpus(rep: &mut Rep, ev: &mut usize) {
+    let v12 = num(&[2], &[1., 2.]);
+    let m = num(&[2, 2], &[1., 0., 3., 2.]);
+    let s2 = num(&[], &[2.]);
+    let bx = boxes(&[2], vec![num(&[2], &[1., 2.]), chars(&[1], &['a'])]);
+    multi_mon_case(rep, ev, "≡", 1, 0, &v12); // ≡(4 ¯) [1 2]
+    multi_mon_case(rep, ev, "≡", 1, 2, &v12); // ≡(¬ 4 ¬) [1 2]
+    multi_mon_case(rep, ev, "∵", 1, 1, &s2); // ∵(0 ¯) 2
+    for fi in 0..MULTI_MON.len() {
+        for x in [&v12, &m, &s2, &num(&[0], &[]), &num(&[1, 2], &[5., 6.])] {
+            for k in 1..=2 {
+                multi_mon_case(rep, ev, "≡", k, fi, x);
+            }
+            multi_mon_case(rep, ev, "∵", 1, fi, x);
+            multi_mon_case(rep, ev, "⍚", 1, fi, x);
+        }
+        multi_mon_case(rep, ev, "⍚", 1, fi, &bx);
+    }
+    for fi in 0..MULTI_DY.len() {
+        multi_dy_case(rep, ev, false, fi, &v12, &num(&[2], &[5., 7.]));
+        multi_dy_case(rep, ev, false, fi, &m, &m);
+        multi_dy_case(rep, ev, true, fi, &v12, &num(&[3], &[5., 7., 9.]));
+        multi_dy_case(rep, ev, true, fi, &m, &v12);
+    }
+    for fi in 0..MULTI_FOLD.len() {
+        multi_fold_case(rep, ev, fi, &num(&[3], &[1., 2., 3.]), &num(&[], &[0.]), &num(&[], &[1.]));
+        multi_fold_case(rep, ev, fi, &m, &num(&[], &[0.]), &num(&[2], &[1., 1.]));
+    }
 }
 
 // ---------------------------------------------------------------- arguments that carry sortedness marks
@@ -962,8 +1301,8 @@ fn routing_case(rep: &mut Rep, ev: &mut usize, r: &mut Rng) {
         return;
     }
     let _ = (fo, go);
-    let fb = f.trim_start_matches('(').trim_end_matches(')');
-    let gb = g.trim_start_matches('(').trim_end_matches(')');
+    let fb = bare_of(f);
+    let gb = bare_of(g);
     let exp = if m == "◠" { "# Experimental!\n" } else { "" };
     let variants: Vec<(String, &str)> = if two {
         vec![
